@@ -497,6 +497,16 @@ func inputs(thorough bool) []gen {
 		add("server", announce+"GET / HTTP/1.1\r\n"+txt+"\r\n\r\n", "error-like-header-text")
 		add("server", "X-SOCKETACE / HTTP/1.1\r\n"+txt+"\r\n\r\n"+upgrade, "error-like-header-text")
 	}
+	// request lines around the reader's buffer size: the line is the line whatever its length
+	for _, L := range []int{4000, 4090, 4093, 4094, 4095, 4096, 4097, 4098, 4099, 4100, 4120, 6000, 8191, 8192, 8193} {
+		pad := L - len("X-SOCKETACE / HTTP/1.1")
+		target := "/" + strings.Repeat("a", pad)
+		add("server", "X-SOCKETACE "+target+" HTTP/1.1\r\nAccepts-Protocol-Version: v2.0.0\r\n\r\n"+upgrade, "long-request-line")
+		// the same length, but the version header is part of the LINE (no line end before it): no offer
+		add("server", "X-SOCKETACE "+target+" HTTP/1.1Accepts-Protocol-Version: v2.0.0\r\n\r\n"+upgrade, "long-request-line-swallowing-header")
+		ut := "/" + strings.Repeat("b", L-len("GET / HTTP/1.1"))
+		add("server", announce+"GET "+ut+" HTTP/1.1\r\nConnection: upgrade\r\nUpgrade: socketace/v2.0.0\r\n\r\n", "long-upgrade-line")
+	}
 	add("server", announce, "announce-only")
 	add("server", announce+upgrade, "canonical")
 	add("server", "X-SOCKETACE / HTTP/1.1\r\nAccepts-Protocol-Version: v1.0.0, v2.0.0\r\n\r\n"+upgrade, "canonical-list")
